@@ -24,7 +24,7 @@ func (w *World) verifyFunction(fn *ssa.Function, ct *Contract, tag string, safeA
 	for _, l := range w.db.LitOrder {
 		vc.strLit(l)
 	}
-	e := &encoder{prog: w.prog, vc: vc, db: w.db, tag: tag, root: fn, modPath: w.modPath, obSeq: map[string]int{}, safeAll: safeAll}
+	e := &encoder{prog: w.prog, vc: vc, db: w.db, tag: tag, root: fn, modPath: w.modPath, obSeq: map[string]int{}, safeAll: safeAll, assertHit: map[int]bool{}}
 	e.consts = &constInfo{e: e, repoFns: w.repoFns, status: map[*ssa.Global]*globalConst{}}
 	e.ms = &modsetCache{e: e, memo: map[*ssa.Function]*modSet{}, active: map[*ssa.Function]bool{}}
 	res := &FuncResult{Func: shortFn(fn), Key: fn.String(), VC: vc, Contract: ct}
@@ -123,6 +123,15 @@ func (w *World) verifyFunction(fn *ssa.Function, ct *Contract, tag string, safeA
 			fr.oblige("post", "", fmt.Sprintf("return%d#%d", r.idx, i), r.st, g, cl.Text, cl.Tags)
 		}
 	}
+	// every "at <anchor> assert" clause must have matched a program point
+	if ct != nil {
+		for i, cl := range ct.Asserts {
+			if !e.assertHit[i] && e.tagActive(cl.Tags) {
+				vc.obls = append(vc.obls, &Obligation{Name: fmt.Sprintf("%s#assert@unmatched-anchor#%d", shortFn(fn), i), Kind: "assert", Guard: "true", Goal: "false", NFacts: 0, AssumeIdx: -1, Expect: "unsat", Func: shortFn(fn),
+					Desc: "no program point matches anchor \"" + cl.Anchor + "\" (the sink it guards is gone or renamed); anchors seen: " + strings.Join(uniq(e.anchorsSeen), " | "), Tags: cl.Tags})
+			}
+		}
+	}
 	// vacuity / cover queries
 	res.Covers = append(res.Covers, &Obligation{Name: shortFn(fn) + "#vacuity@entry", Kind: "vacuity", Guard: "true", Goal: "false", NFacts: entryFacts, Expect: "sat", Func: shortFn(fn), Desc: "precondition satisfiable"})
 	for _, r := range fr.rets {
@@ -151,10 +160,12 @@ func (fr *frame) checkAsserts(anchor string, st *State) {
 	if ct == nil {
 		return
 	}
+	fr.enc.anchorsSeen = append(fr.enc.anchorsSeen, anchor)
 	for i, cl := range ct.Asserts {
 		if cl.Anchor != anchor || !fr.enc.tagActive(cl.Tags) {
 			continue
 		}
+		fr.enc.assertHit[i] = true
 		ctx := fr.specCtx(st, fr.oldState(), nil, fr.curBlock, fr.curIdx)
 		g, err := ctx.goal(cl.Expr)
 		if err != nil {
@@ -241,4 +252,16 @@ func (fr *frame) declaredMods(m ModSpec, ctx *specCtx) []declMod {
 		}
 	}
 	return nil
+}
+
+func uniq(xs []string) []string {
+	seen := map[string]bool{}
+	var out []string
+	for _, x := range xs {
+		if !seen[x] {
+			seen[x] = true
+			out = append(out, x)
+		}
+	}
+	return out
 }
